@@ -94,7 +94,7 @@ class Registry(Obligation):
         p.assume(z3.Not(eq_val(n1, n2)))
         u1, u2 = p.fresh('u1', 'bool'), p.fresh('u2', 'bool')
         c1, c2, c3 = Opaque('cfg1'), Opaque('cfg2'), Opaque('cfg-new')
-        pstate = Cell(mk(ctx, 'PushSubscriptionsRegistryState', push_subscriptions=MapM([(u1, n1, c1), (u2, n2, c2)])), 'pstate')
+        pstate = Cell(mk_single(ctx, 'PushSubscriptionsRegistryState', MapM([(u1, n1, c1), (u2, n2, c2)])), 'pstate')
         reg = mk(ctx, 'PushSubscriptionsRegistry', state=ArcCell(Cell(LockM('push_registry.state', pstate))))
         some_cfg = p.choose(2, 'set Some/None')
         arg = Enum('Option', 1, {1: (c3,)}) if some_cfg == 0 else Enum('Option', 0, {})
@@ -104,7 +104,7 @@ class Registry(Obligation):
 
     def post(self, ip, p, res):
         ctx = ip.ctx
-        mp = fld(ctx, res['pstate'].v, 'PushSubscriptionsRegistryState', 'push_subscriptions')
+        mp = fld_single(ctx, res['pstate'].v, 'PushSubscriptionsRegistryState')
         out = [Claim('other entry untouched', mp.found(res['n2']) == res['u2'])]
         if res['some']:
             out.append(Claim('registered', mp.found(res['n1'])))
@@ -352,7 +352,7 @@ class PushLoopIteration(Obligation):
         eps = [p.fresh('endpoint%d' % i) for i in range(2)]
         cfgs = [mk(ctx, 'PushConfig', 'subscriptions/subscription', endpoint=StrTok(eps[i]), oidc_token=Enum('Option', 0, {}), attributes=Enum('Option', 0, {}))
                 for i in range(2)]
-        pstate = Cell(mk(ctx, 'PushSubscriptionsRegistryState', push_subscriptions=MapM([(used[i], names[i], cfgs[i]) for i in range(2)])), 'pstate')
+        pstate = Cell(mk_single(ctx, 'PushSubscriptionsRegistryState', MapM([(used[i], names[i], cfgs[i]) for i in range(2)])), 'pstate')
         reg = mk(ctx, 'PushSubscriptionsRegistry', state=ArcCell(Cell(LockM('push_registry.state', pstate))))
         interval = p.fresh('interval_ns')
         p.assume(z3.And(interval >= 0, interval < (1 << 62)))
